@@ -78,6 +78,17 @@ def jwOneNorm (n : Nat) (A : List (List (Nat × Nat) × GQ)) (withId : Bool) : O
         if c.im ≠ 0 then none else some (a + rabs c.re)) acc) (some 0)
   r.map (· / (2 ^ n : Nat))
 
+/-! ### operators in Pauli form -/
+
+/-- sum of `|c|` over the strings of a qubit operator stored as (Pauli string, real coefficient) pairs; the identity
+string `[]` is included iff `withId` -/
+def pauliListNorm (A : List (List (Nat × Nat) × GQ)) (withId : Bool) : Rat :=
+  (A.map fun tc => if tc.1 = [] ∧ withId = false then 0 else rabs tc.2.re).sum
+
+/-- a real `n × n` matrix (list of rows) as the row-major complex tensor the transforms take -/
+def flatReal (n : Nat) (M : List (List Rat)) : List GQ :=
+  (List.range (n * n)).map fun i => (⟨(M.getD (i / n) []).getD (i % n) 0, 0⟩ : GQ)
+
 /-! ### QROM helpers -/
 
 /-- `QR` statement: `k` minimises `L/2^k + M(2^k - 1)` over all `k' ≤ bound` and `val` is the ceiling
